@@ -118,7 +118,10 @@ BlockFrames(fmt, ch, rate) ==
 \* DWVW is a bit stream without frame aligned blocks : the final frames are flushed at close, F = N
 \* ALAC in CAF records the number of valid frames in its packet table : F = N
 
+\* (DPCM stores differences: a sample cannot be rewritten or reached without decoding from the start, so it is not sample granular
+\*  for random access although its byte width is fixed; XI accepts an RDWR open and then refuses every seek and write)
 IsGranular(fmt) == ByteWidth(Sub(fmt)) > 0 /\ ~(Major(fmt) = M_SDS) /\ ~(Major(fmt) = M_PAF /\ Sub(fmt) = S_PCM_24)
+                   /\ Sub(fmt) \notin {S_DPCM8, S_DPCM16}
 
 \* containers that pad an odd number of data bytes (C04 : at most one pad frame)
 PadsOdd(fmt) == Major(fmt) \in {M_WAV, M_WAVEX, M_RF64, M_AIFF, M_SVX, M_VOC}
